@@ -194,6 +194,8 @@ impl<T> Scheduler<T> {
 impl Sender {
     /// Send a runnable to the executor.
     fn send(&self, runnable: Runnable<usize>) {
+        #[cfg(calloop_verif)]
+        crate::verif::yield_point("exec.send.before_enqueue");
         // Send on the channel.
         //
         // All we do with the lock is call `send`, so there's no chance of any state being corrupted on
@@ -215,6 +217,8 @@ impl Sender {
             unreachable!("Attempted to send runnable to a stopped executor");
         }
 
+        #[cfg(calloop_verif)]
+        crate::verif::yield_point("exec.send.before_swap");
         // If the executor is already awake, don't bother waking it up again.
         if self.notified.swap(true, Ordering::SeqCst) {
             return;
@@ -227,6 +231,8 @@ impl Sender {
 
 impl<T> Drop for Executor<T> {
     fn drop(&mut self) {
+        #[cfg(calloop_verif)]
+        crate::verif::yield_point("exec.drop.before_wake");
         let active_tasks = self.state.active_tasks.borrow_mut().take().unwrap();
 
         // Wake all of the active tasks in order to destroy their runnables.
@@ -245,6 +251,8 @@ impl<T> Drop for Executor<T> {
             }
         }
 
+        #[cfg(calloop_verif)]
+        crate::verif::yield_point("exec.drop.before_drain");
         // Drain the queue in order to drop all of the runnables.
         while self.state.incoming.try_recv().is_ok() {}
     }
@@ -315,11 +323,23 @@ impl<T> EventSource for Executor<T> {
             let action = self
                 .source
                 .process_events(readiness, token, |(), &mut ()| {
+                    #[cfg(calloop_verif)]
+                    crate::verif::yield_point("exec.run.before_clear");
                     // Set to the unnotified state.
                     state.sender.notified.store(false, Ordering::SeqCst);
+                    #[cfg(calloop_verif)]
+                    let mut verif_n = 0usize;
 
                     // Process runnables, but not too many at a time; better to move onto the next event quickly!
                     for _ in 0..1024 {
+                        #[cfg(calloop_verif)]
+                        {
+                            verif_n += 1;
+                            if verif_n > crate::verif::batch_limit() {
+                                break;
+                            }
+                            crate::verif::yield_point("exec.run.before_try_recv");
+                        }
                         let runnable = match state.incoming.try_recv() {
                             Ok(runnable) => runnable,
                             Err(_) => {
@@ -360,6 +380,8 @@ impl<T> EventSource for Executor<T> {
 
         // Re-ready the ping source if we need to re-run this handler.
         if !clear_readiness {
+            #[cfg(calloop_verif)]
+            crate::verif::yield_point("exec.rearm.before");
             self.ping.ping();
             Ok(PostAction::Continue)
         } else {
